@@ -29,6 +29,13 @@ def opAlign : P String := do
   let ev ← pFloats; let co ← pFloats
   return s!"ok {floatBits (Flow.axisDiff ev co)} {outFloats (Flow.alignAxis ev co)}"
 
+/-- `embed verts e1 e2 e3` → `ok embedded-vertices spatvol` | `err ValueError msg` : spectral embedding of tria_spherical_project -/
+def opEmbed : P String := do
+  let v ← pVerts; let e1 ← pFloats; let e2 ← pFloats; let e3 ← pFloats
+  match Flow.embed v.toList e1 e2 e3 with
+  | .ok (vn, sv) => return s!"ok {outV3s vn} {floatBits sv}"
+  | .error m => return s!"err ValueError {m}"
+
 def flowOps : List (String × P String) :=
-  [("flow_sys", opFlowSys), ("flow_diff", opFlowDiff), ("project100", opProject100), ("gates", opGates), ("align", opAlign)]
+  [("embed", opEmbed), ("flow_sys", opFlowSys), ("flow_diff", opFlowDiff), ("project100", opProject100), ("gates", opGates), ("align", opAlign)]
 end LapyVerif.Driver
